@@ -62,36 +62,53 @@ def run(ctx):
         context.GLOBAL.admin._conn = be        # pylint: disable=protected-access
         api = api_alloc.API().reservation
         directory = be._ldap_conn
-        cells = ['c1', 'c2']
+        cells = ['c1', rng.choice(['c2', 'NY-Cell2', 'Z9'])]       # cell names may contain capitals
         parts = ['_default', 'p1', 'p2'][:rng.randint(1, 3)]
         pcap = {}
+
+        def define_partition(cell, p, shrink=False):
+            roomy = rng.random() < 0.5       # partition roomy, trait limits binding
+            k = 1 if shrink else 8
+            cap = dict(cpu=rng.choice([100, 400, 1000]) * (k if roomy else 1),
+                       memory=rng.choice([1024, 4096, 16384]) * (k if roomy else 1),
+                       disk=rng.choice([1024, 4096, 16384]) * (k if roomy else 1))
+            limits = []
+            for t in rng.sample(TRAITS, rng.choice([0, 1, 2, 3, 4] if roomy else [0, 0, 1, 2, 3])):
+                limits.append(dict(trait=t, cpu='%d%%' % rng.choice([0, 100, 200, 500, 800]),
+                                   memory=spell_bytes(rng, rng.choice([0, 512, 2048, 8192])),
+                                   disk=spell_bytes(rng, rng.choice([0, 512, 2048, 8192]))))
+            rec = dict(cpu='%d%%' % cap['cpu'], memory=spell_bytes(rng, cap['memory']),
+                       disk=spell_bytes(rng, cap['disk']), limits=limits)
+            if (cell, p) in pcap:
+                be.partition().replace([p, cell], rec)
+            else:
+                be.partition().create([p, cell], rec)
+            pcap[(cell, p)] = dict(cpu=cap['cpu'], memory=cap['memory'] * UNIT['M'], disk=cap['disk'] * UNIT['M'],
+                                   limits={l['trait']: dict(cpu=own_cpu(l['cpu']), memory=own_bytes(l['memory']),
+                                                            disk=own_bytes(l['disk'])) for l in limits})
+
         for cell in cells:
             for p in parts:
                 if rng.random() < 0.12:
                     continue            # no partition record: zero capacity
-                roomy = rng.random() < 0.5       # partition roomy, trait limits binding
-                cap = dict(cpu=rng.choice([100, 400, 1000]) * (8 if roomy else 1),
-                           memory=rng.choice([1024, 4096, 16384]) * (8 if roomy else 1),
-                           disk=rng.choice([1024, 4096, 16384]) * (8 if roomy else 1))
-                limits = []
-                for t in rng.sample(TRAITS, rng.choice([0, 1, 2, 3, 4] if roomy else [0, 0, 1, 2, 3])):
-                    limits.append(dict(trait=t, cpu='%d%%' % rng.choice([0, 100, 200, 500, 800]),
-                                       memory=spell_bytes(rng, rng.choice([0, 512, 2048, 8192])),
-                                       disk=spell_bytes(rng, rng.choice([0, 512, 2048, 8192]))))
-                rec = dict(cpu='%d%%' % cap['cpu'], memory=spell_bytes(rng, cap['memory']),
-                           disk=spell_bytes(rng, cap['disk']), limits=limits)
-                be.partition().create([p, cell], rec)
-                pcap[(cell, p)] = dict(cpu=cap['cpu'], memory=cap['memory'] * UNIT['M'], disk=cap['disk'] * UNIT['M'],
-                                       limits={l['trait']: dict(cpu=own_cpu(l['cpu']), memory=own_bytes(l['memory']),
-                                                                disk=own_bytes(l['disk'])) for l in limits})
+                define_partition(cell, p)
         mirror = {}      # (alloc, cell) -> dict(cpu, memory, disk, partition, traits)
-        allocs = ['t%d/a%d' % (rng.randint(0, 1), i) for i in range(rng.randint(2, 5))]
+        allocs = [rng.choice(['t%d/a%d', 'T%d/Alloc%d']) % (rng.randint(0, 1), i) for i in range(rng.randint(2, 5))]
         kinds = []
         nontrivial = False
         for step in range(rng.randint(10, 40)):
             alloc, cell = rng.choice(allocs), rng.choice(cells)
             key = (alloc, cell)
             rid = '%s/%s' % (alloc, cell)
+            if pcap and rng.random() < 0.06:
+                # the operator redefines a partition: capacity and trait limits may drop below what is
+                # already promised (the free capacity the next request is checked against is then negative)
+                c2, p2 = rng.choice(sorted(pcap))
+                define_partition(c2, p2, shrink=rng.random() < 0.7)
+                over = any(sum(m[d] for k, m in mirror.items() if k[1] == c2 and m['partition'] == p2) > pcap[(c2, p2)][d]
+                           for d in ('cpu', 'memory', 'disk'))
+                ctx.count('partition_redefined_overcommitted' if over else 'partition_redefined')
+                kinds.append('repartition')
             if key in mirror and rng.random() < 0.12:
                 api.delete(rid)
                 del mirror[key]
